@@ -148,7 +148,7 @@ JBuild(e) ==
                     ELSE IF Len(m.keys) = 0 \/ Len(m.keys) > 16 THEN "keycount" ELSE IF Len(m.leases) > 16 THEN "leasecount" ELSE "valid"
             KeyEndOf(i) == IF i < d.nk THEN d.keyStarts[i + 1] ELSE d.leaseOff - 1
         IN
-        << R("C02", "constructed_leaseset2_decodes_to_model", r.ok /\ r.serok /\ destOK /\ ~defect,
+        << R("C02", "constructed_leaseset2_decodes_to_model", r.ok /\ r.serok /\ destOK /\ ~defect /\ "rawopts" \notin DOMAIN m,
              /\ d.ok /\ d.consumed = Len(r.ser)
              /\ KACPub(r.ser, 0, d.h.d) = m.dest.pub /\ KACSpk(r.ser, 0, d.h.d) = m.dest.spk /\ d.h.d.st = m.dest.st /\ d.h.d.ct = m.dest.ct
              /\ Slice(r.ser, d.h.d.consumed, 4) = m.published /\ U16(r.ser, d.h.d.consumed + 4) = m.expires /\ d.h.flags = m.flags
@@ -158,7 +158,12 @@ JBuild(e) ==
              /\ d.nk = Len(m.keys) /\ \A i \in 1..d.nk : LET ks == d.keyStarts[i] IN
                    U16(r.ser, ks) = m.keys[i].type /\ U16(r.ser, ks + 2) = m.keys[i].len /\ Slice(r.ser, ks + 4, KeyEndOf(i) - ks - 4) = m.keys[i].data
              /\ d.nl = Len(m.leases) /\ \A i \in 1..d.nl : Slice(r.ser, d.leaseOff + (i - 1) * Lease2Len, Lease2Len) = m.leases[i], cls \o "/" \o cls2),
-           R("C14", "constructor_rejects_documented_defect", destOK /\ defect /\ ~("desterr" \in DOMAIN r), ~r.ok, cls \o "/" \o cls2) >>
+           R("C14", "constructor_rejects_documented_defect", destOK /\ defect /\ ~("desterr" \in DOMAIN r), ~r.ok, cls \o "/" \o cls2),
+           \* the leaseset's own key-size validation agrees with the table for EVERY key of the set, wherever it stands
+           R("C10", "leaseset_key_validation_agrees_with_table", destOK /\ ~keyLenOK /\ ~("desterr" \in DOMAIN r), ~r.ok, cls \o "/" \o cls2),
+           \* (a key of the table's length is not the reason for a rejection: judged only on sets that differ from an accepted one in the keys alone)
+           R("C10", "leaseset_keys_of_table_length_accepted", destOK /\ ~defect /\ ~("desterr" \in DOMAIN r) /\ "rawopts" \notin DOMAIN m
+                    /\ Len(m.leases) >= 1 /\ ~hasOff /\ m.flags = 0, r.ok, cls \o "/" \o cls2) >>
         \o Lifecycle(r, cls \o "/" \o cls2)
     [] OTHER -> << R("X", "unknown_build_fn", TRUE, FALSE, e.fn) >>
 
